@@ -76,9 +76,13 @@ package aggoracle
 //@ func (a *AggOracle) Start (a, ctx)
 //@   props C15
 //@   requires a != nil && a.l1Client != nil && a.l1Info != nil && a.chainSender != nil && a.logger != nil
-//@   modifies sampledFinal, lastSampled, gerInjected, lastInjected, injectCalls, infoLookupsOK, injectFaults
+//@   requires !ctxEnded
+//@   modifies sampledFinal, lastSampled, gerInjected, lastInjected, injectCalls, infoLookupsOK, injectFaults, ctxEnded
+// the safety shadow of "keeps injecting": the loop is left only through the case of its own context's Done channel - no
+// error of a tick, whatever it wraps, ends the oracle (termination and fairness of the ticker are not decided)
+//@   ensures[stops-only-when-its-context-ended] ctxEnded
 //@   nocalls
 //@   allowcalls processLatestGER handleGERProcessingError NewTicker Stop Done
-//@   loop 0 invariant ticker != nil
+//@   loop 0 invariant ticker != nil && !ctxEnded
 //@   loop 0 invariant a.l1Client != nil && a.l1Info != nil && a.chainSender != nil && a.logger != nil
 //@   loop 0 invariant blockNumToFetch != 0 ==> sampledFinal[blockNumToFetch]
